@@ -277,6 +277,36 @@ Definition calculate_order_args {A} (calc : system -> option A) (vel_rev : bool)
               (match sbox conf with Some b => Some b | None => box0 end))
   end.
 
+(* ------------------------------------------------------------------ EngineBase.propagate
+   The direction flag at the call site of calculate_order.  propagate(path, ens_set, system,
+   reverse) does, before the engine runs:
+     initial_file = self.dump_frame(system)
+     if reverse != system.vel_rev:  self._reverse_velocities(initial_file, r_<initial_file>)
+     system.set_pos((initial_conf, 0))
+     system.vel_rev = reverse
+     self._propagate_from(name, path, system, ens_set, msg_file, reverse=reverse)
+   and every engine's _propagate_from does, for each frame it stores, with the RAW arrays
+   xyz / vel / box of the running engine:
+     order = self.calculate_order(system, xyz=..., vel=..., box=...)
+     snapshot = {"order": order, "config": (traj_file, step_nr), "vel_rev": reverse}
+   [flag_in] is system.vel_rev of the incoming shooting point, [vel] the velocities its file
+   holds.  [propagate_start] = the velocities the engine is started with, [propagate_flag] =
+   what system.vel_rev holds while _propagate_from runs, [propagate_frame] = (order, vel_rev)
+   stored for a frame whose raw content is xyz / vel / box. *)
+Definition propagate_start (flag_in reverse : bool) (vel : list v3) : list v3 :=
+  if Bool.eqb reverse flag_in then vel else map vneg vel.
+
+Definition propagate_flag (flag_in reverse : bool) : bool := reverse.
+
+Definition propagate_frame {A} (calc : system -> option A) (flag_in reverse : bool)
+           (xyz vel : list v3) (box : option (list Z)) : option A * bool :=
+  (calculate_order calc (propagate_flag flag_in reverse) xyz vel box, reverse).
+
+(* frame 0 of the run: the engine's raw arrays are the start configuration *)
+Definition propagate_frame0 {A} (calc : system -> option A) (flag_in reverse : bool)
+           (xyz vel : list v3) (box : option (list Z)) : option A * bool :=
+  propagate_frame calc flag_in reverse xyz (propagate_start flag_in reverse vel) box.
+
 (* ------------------------------------------------------------------ Path.reverse
    A frame holds an order value, the vel_rev flag and what System.pos/vel/box hold
    (None models pos = vel = None, which is what snapshot_to_system stores).
